@@ -55,6 +55,19 @@ Section Gen.
   Notation sys := (@sys R).
   Notation pway := (@pway R).
 
+  (* ---------------- small vector helpers of the generated orientational factor ---------------- *)
+  Lemma vec3_eq (a b c a' b' c' : R) : a = a' -> b = b' -> c = c' -> (a, b, c) = (a', b', c').
+  Proof. now intros -> -> ->. Qed.
+  (* numpy.dot(vector, matrix) and numpy.dot(matrix, vector) for a 3 x 3 matrix given by its entries *)
+  Definition vecmat (f : vec3) (M : nat -> nat -> R) : vec3 :=
+    (vx f * M 0%nat 0%nat + vy f * M 1%nat 0%nat + vz f * M 2%nat 0%nat,
+     vx f * M 0%nat 1%nat + vy f * M 1%nat 1%nat + vz f * M 2%nat 1%nat,
+     vx f * M 0%nat 2%nat + vy f * M 1%nat 2%nat + vz f * M 2%nat 2%nat).
+  Definition matvec (M : nat -> nat -> R) (f : vec3) : vec3 :=
+    (M 0%nat 0%nat * vx f + M 0%nat 1%nat * vy f + M 0%nat 2%nat * vz f,
+     M 1%nat 0%nat * vx f + M 1%nat 1%nat * vy f + M 1%nat 2%nat * vz f,
+     M 2%nat 0%nat * vx f + M 2%nat 1%nat * vy f + M 2%nat 2%nat * vz f).
+
   (* ---------------- no construction fails when the only ground state is state 0 ---------------- *)
   Definition ground0 (Sy : sys) : Prop := forall g, In g (ngs Sy) -> g = 0%nat.
 
@@ -78,6 +91,14 @@ Section Gen.
   Proof.
     intros H. pose proof (gen6_all_ok Sy H) as H6. unfold gen6, gen6_with in H6. apply Forall_app in H6. exact (proj1 H6).
   Qed.
+
+  (* ---------------- the calculator's four defaults against the single default of Model/C12.v ---------------- *)
+  Lemma contrib4_same L neg (d : R) gauss (FM : vec3) (p : pway) : contrib4 L neg d d d d gauss FM p = contrib L neg d gauss FM p.
+  Proof. unfold contrib4, calc_args4, contrib, sel4, sel. destruct gauss; reflexivity. Qed.
+  Lemma contrib4_no_default L neg (a b c d dflt : R) gauss (FM : vec3) (p : pway) :
+    neg (pw_w1 p) = false -> neg (pw_w3 p) = false -> neg (pw_g1 p) = false ->
+    contrib4 L neg a b c d gauss FM p = contrib L neg dflt gauss FM p.
+  Proof. intros H1 H3 G1. unfold contrib4, calc_args4, contrib, sel4, sel. rewrite H1, H3, G1. destruct gauss; reflexivity. Qed.
 
   (* a leaf of a generator, run by the object machine *)
   Definition xobj (Sy : sys) (c : @xcall) (ops : list (@xop R)) : list pway := olist (xpath Sy c ops).
